@@ -450,6 +450,9 @@ func runC07(cx *Ctx, r *Report) {
 			r.toolErr("no request creation found in the charging body of the end blocker")
 		}
 	}
+	// an unanswered request is refunded at expiry only while its batch is not declared
+	// completed: who may write BatchState := COMPLETED (rule shared with C08)
+	cx.batchCompletedWriters(r, per)
 	r.requireCount("issue-after-charge", 1)
 	r.requireCount("deposit-double-entry", 4)
 	r.requireCount("respond-split", 2)
